@@ -5,8 +5,16 @@ from .rdfmodel import triples_from_json, to_nt, RDF_TYPE
 from . import gen_graph as gg
 
 
+def expanded(case):
+    """shallow copy of the case with a compactly stored graph ({"scale": ...}) expanded; the case object itself (what gets
+    recorded as replay / sample) stays compact"""
+    if "scale" in case["g"]:
+        return dict(case, g=gg.expand(case["g"]))
+    return case
+
+
 def base_kwargs(case):
-    g = case["g"]
+    g = gg.expand(case["g"])
     triples = triples_from_json(g["triples"])
     kw = dict(raw_graph=to_nt(triples), instantiation_property=g["inst_prop"])
     kw.update(case.get("cfg", {}))
